@@ -632,3 +632,35 @@ func loopVisitsAll(o *an.Obl, f *an.Func, loopRe string) {
 		o.FailAt(f.ID+"#loop-"+loopRe, f.Where(f.Body.Pos()), "cannot find the loop over %s in %s", loopRe, f.ID)
 	}
 }
+
+// allLoopsVisitAll applies loopVisitsAll to every range loop of f (nested
+// function literals excluded) except those whose operand canon matches a key
+// of except (value = reason: e.g. a search loop that stops at the first hit).
+func allLoopsVisitAll(o *an.Obl, f *an.Func, except map[string]string) int {
+	n := 0
+	seen := map[string]bool{}
+	for _, head := range f.Graph().V {
+		rs, ok := head.Node.(*ast.RangeStmt)
+		if !ok || head.Kind != flow.KRange {
+			continue
+		}
+		c := f.Canon(rs.X)
+		if seen[c] {
+			continue
+		}
+		seen[c] = true
+		skip := false
+		for re, why := range except {
+			if regexp.MustCompile(re).MatchString(c) {
+				o.Site("%s: loop over %s exempt (%s)", f.ID, c, why)
+				skip = true
+			}
+		}
+		if skip {
+			continue
+		}
+		n++
+		loopVisitsAll(o, f, "^"+regexp.QuoteMeta(c)+"$")
+	}
+	return n
+}
